@@ -637,7 +637,26 @@ pub fn run(tier: Tier, seed: u64, only: Option<String>) -> i32 {
             }
             rep.merge(o);
         }
-        None => rep.run_parallel(n_single + n_multi + n_stale, |i| {
+        None => {
+          // the identifiers that keep sibling tracers apart reach the tracers: the application's
+          // own start_tracer hands each tracer the identifier assigned to its index
+          let mut o = Outcome::default();
+          for (index, pid) in [(0usize, 4242u16), (1, 4242), (3, 4242), (1, 65_534), (2, 65_533), (0, 1)] {
+              match crate::framework::guarded(|| crate::props::c16::started_tracer_identifier(index, pid)) {
+                  Ok(Ok(got)) => {
+                      o.hit("application_tracers_carry_their_assigned_identifier");
+                      let want = trippy_tui::verif::trace_identifier(pid, index);
+                      if got != want {
+                          o.violate("application_tracers_carry_their_assigned_identifier", if got == 0 { "zero" } else { "other" }, format!("process id {pid}, tracer {index}: assigned identifier {want}, the started tracer uses {got}"), json!({"how": format!("vcheck C03 --seed {seed}"), "pid": pid, "index": index}));
+                      }
+                  }
+                  Ok(Err(e)) => o.count(&format!("application_tracer_not_started:{}", e.chars().take(40).collect::<String>()), 1),
+                  Err(p) if p.in_repo() => o.violate("no_panic", format!("application|{}", p.site()), format!("panic at {}:{}: {}", p.file, p.line, p.message), json!({"pid": pid, "index": index})),
+                  Err(p) => o.harness_error = Some(format!("harness panic {}:{} {}", p.file, p.line, p.message)),
+              }
+          }
+          rep.merge(o);
+          rep.run_parallel(n_single + n_multi + n_stale, |i| {
             if i < n_single {
                 run_scenario(seed, i, &cells, tier)
             } else if i < n_single + n_multi {
@@ -645,7 +664,8 @@ pub fn run(tier: Tier, seed: u64, only: Option<String>) -> i32 {
             } else {
                 run_stale(seed, i - n_single - n_multi, &cells, tier)
             }
-        }),
+          });
+        }
     }
     rep.finish()
 }
